@@ -694,6 +694,8 @@ std::string hx_run(const std::string &line, std::string &oracle)
     collect_points(root, bp, has_rats, has_topo);
     if (has_point && !point.inf)
         bp.insert(point);
+    bp.insert(Q(0, 1)); // the number sets change at 0 and 1
+    bp.insert(Q(1, 1));
     Ctx c;
     c.grid = make_grid(bp);
     c.oracle = &oracle;
@@ -728,6 +730,17 @@ std::string hx_run(const std::string &line, std::string &oracle)
 }
 
 // ------------------------------------------------------------------ generator
+// The generated expressions stay inside the fragment on which the (repaired) library terminates and the Lean
+// model mirrors it exactly:
+//   * families "ivfs*": arbitrary trees (depth <= 3) of un/in/co/mu/mi/mc (and bd/ir/cl) over intervals with
+//     rational or infinite end points, finite sets of rationals and the empty set;
+//   * families "num*": the number sets and the universal set join
+//       - at any depth below un / mu only (unions never create Complement / Intersection objects),
+//       - as direct operands of one single co / mc / in / mi / mu node at the root (this is where Complement and
+//         Intersection objects are created; they are inspected through the dump, contains(), sup, inf),
+//       - as the operand of bd / ir / cl.
+// Complement / Intersection objects are never fed back into set_union / set_complement: those methods are known
+// to be wrong (docs/C27.md, findings N7-N9) or not to return at all; fixed reproducers live in corpus/C27.
 static std::string gen_q(Rng &r)
 {
     unsigned k = r.below(100);
@@ -767,81 +780,134 @@ static std::string gen_fs(Rng &r)
         s += " " + gen_q(r);
     return s + ")";
 }
-struct GenCfg {
-    bool numsets, inf_ends, topo, methods, compl_;
-    int max_depth;
-};
-static std::string gen_atom(Rng &r, const GenCfg &g)
+static std::string gen_numset(Rng &r)
 {
-    unsigned k = r.below(100);
-    if (k < 45)
-        return gen_iv(r, g.inf_ends);
-    if (k < 75)
-        return gen_fs(r);
-    if (k < 80)
-        return "empty";
-    if (g.numsets) {
-        static const char *ns[] = {"univ", "reals", "ints", "nats", "nats0", "rats"};
-        return ns[r.below(6)];
-    }
-    return r.coin() ? gen_iv(r, g.inf_ends) : gen_fs(r);
+    static const char *ns[] = {"univ", "reals", "ints", "nats", "nats0", "rats"};
+    return ns[r.below(6)];
 }
-static std::string gen_expr(Rng &r, const GenCfg &g, int depth)
+// iv / fs / empty
+static std::string gen_atom(Rng &r, bool inf_ends)
 {
-    if (depth >= g.max_depth || (depth > 0 && r.coin(1, 4)))
-        return gen_atom(r, g);
     unsigned k = r.below(100);
-    auto sub = [&]() { return gen_expr(r, g, depth + 1); };
-    if (k < 25) {
+    if (k < 55)
+        return gen_iv(r, inf_ends);
+    if (k < 93)
+        return gen_fs(r);
+    return "empty";
+}
+// trees without number sets
+static std::string gen_ivfs(Rng &r, int depth, int max_depth, bool inf_ends, bool topo)
+{
+    if (depth >= max_depth || (depth > 0 && r.coin(1, 4)))
+        return gen_atom(r, inf_ends);
+    auto sub = [&]() { return gen_ivfs(r, depth + 1, max_depth, inf_ends, topo); };
+    unsigned k = r.below(100);
+    if (k < 20) {
         int n = 2 + (int)r.below(3);
         std::string s = "(un";
         for (int i = 0; i < n; i++)
             s += " " + sub();
         return s + ")";
     }
-    if (k < 40) {
+    if (k < 32) {
         int n = 2 + (int)r.below(2);
         std::string s = "(in";
         for (int i = 0; i < n; i++)
             s += " " + sub();
         return s + ")";
     }
-    if (k < 55 && g.compl_)
+    if (k < 47)
         return "(co " + sub() + " " + sub() + ")";
-    if (k < 85 && g.methods) {
-        static const char *m[] = {"mu", "mi", "mc"};
-        std::string t = m[r.below(g.compl_ ? 3 : 2)];
-        return "(" + t + " " + sub() + " " + sub() + ")";
+    if (k < 62)
+        return "(mu " + sub() + " " + sub() + ")";
+    if (k < 74)
+        return "(mi " + sub() + " " + sub() + ")";
+    if (k < 89 || !topo)
+        return "(mc " + sub() + " " + sub() + ")";
+    static const char *m[] = {"bd", "ir", "cl"};
+    return std::string("(") + m[r.below(3)] + " " + sub() + ")";
+}
+// unions that may contain number sets at any depth
+static std::string gen_numunion(Rng &r, int depth, int max_depth)
+{
+    if (depth >= max_depth || (depth > 0 && r.coin(1, 3)))
+        return r.coin(2, 5) ? gen_numset(r) : gen_atom(r, true);
+    auto sub = [&]() { return gen_numunion(r, depth + 1, max_depth); };
+    if (r.coin()) {
+        int n = 2 + (int)r.below(3);
+        std::string s = "(un";
+        for (int i = 0; i < n; i++)
+            s += " " + sub();
+        return s + ")";
     }
-    if (k < 95 && g.topo) {
-        static const char *m[] = {"bd", "ir", "cl"};
-        return std::string("(") + m[r.below(3)] + " " + sub() + ")";
+    return "(mu " + sub() + " " + sub() + ")";
+}
+static std::string with_verb(Rng &r, const std::string &e, std::string &tag)
+{
+    unsigned k = r.below(100);
+    if (k < 64) {
+        tag = "eval-" + tag;
+        return "eval " + e;
     }
-    return gen_atom(r, g);
+    if (k < 82) {
+        tag = "contains-" + tag;
+        return "contains " + e + " " + gen_q(r);
+    }
+    tag = "supinf-" + tag;
+    return std::string(r.coin() ? "sup " : "inf ") + e;
 }
 
 void hx_gen(Rng &r, const std::string &tier)
 {
     bool th = tier == "thorough";
-    int n = th ? 6000 : 1200;
-    int md = 3;
-    if (tier.size() == 2 && tier[0] == 'd') { // exploration: d1, d2, ... = maximal depth
-        md = tier[1] - '0';
-        n = 4000;
-    }
-    GenCfg basic = {false, false, false, true, true, md};
-    GenCfg full = {true, true, true, true, true, md};
+    r.s = r.next(); // the streams of consecutive seeds of common.h's Rng are shifts of each other: decorrelate
+    // the confirmed defects D13 / D14 and their neighbours, always
+    emit("eval (mc (iv 0 2 c c) (iv 5 7 c c))", "fixed-D13");
+    emit("eval (co (iv 5 7 c c) (iv 0 2 c c))", "fixed-D13");
+    emit("eval (mc (fs 1 2 3 10 1/2 -5) (iv 0 2 c c))", "fixed-D14");
+    emit("eval (ir (iv -1 4 c c))", "fixed-D14");
+    emit("eval (mc nats0 ints)", "fixed-N5");
+    emit("contains (mi (iv 0 7 o o) rats) -2", "fixed-N6");
+    emit("eval (in ints (iv 6 oo c o))", "fixed-N2");
+    emit("eval (bd (un (iv 0 1 c o) (iv 1 2 c c)))", "fixed-N3");
+    emit("eval (mu (un (fs -3 6) (iv 4 5 c c)) (fs 1))", "fixed-N10");
+    emit("eval (un (mu nats0 (iv 3 oo c o)) nats reals)", "fixed-N11");
+    int n = th ? 9000 : 1500;
     for (int i = 0; i < n; i++) {
-        bool b = r.coin(1, 2);
-        const GenCfg &g = b ? basic : full;
-        std::string e = gen_expr(r, g, 0);
         unsigned k = r.below(100);
-        std::string tag = b ? "ivfs" : "full";
-        if (k < 70)
-            emit("eval " + e, "eval-" + tag);
-        else if (k < 85)
-            emit("contains " + e + " " + gen_q(r), "contains-" + tag);
-        else
-            emit(std::string(r.coin() ? "sup " : "inf ") + e, "supinf-" + tag);
+        std::string e, tag;
+        if (k < 45) { // interval / finite set trees
+            int md = 1 + (int)r.below(3);
+            bool inf = r.coin(1, 3);
+            e = gen_ivfs(r, 0, md, inf, false);
+            tag = std::string("ivfs") + (inf ? "-inf" : "") + "-d" + std::to_string(md);
+        } else if (k < 57) { // with topological operators
+            // finite end points only: boundary([a, oo)) is the FiniteSet {a, oo} (extended reals)
+            e = gen_ivfs(r, 0, 1 + (int)r.below(3), false, true);
+            if (r.coin()) {
+                static const char *m[] = {"bd", "ir", "cl"};
+                e = std::string("(") + m[r.below(3)] + " " + e + ")";
+            }
+            tag = "ivfs-topo";
+        } else if (k < 72) { // unions with number sets
+            e = gen_numunion(r, 0, 1 + (int)r.below(3));
+            tag = "num-union";
+        } else if (k < 94) { // one operation on atoms including number sets
+            static const char *ops[] = {"co", "mc", "in", "mi", "mu", "un"};
+            std::string o = ops[r.below(6)];
+            auto at = [&]() { return r.coin(1, 2) ? gen_numset(r) : gen_atom(r, true); };
+            int nk = (o == "in" || o == "un") ? 2 + (int)r.below(2) : 2;
+            e = "(" + o;
+            for (int j = 0; j < nk; j++)
+                e += " " + at();
+            e += ")";
+            tag = "num-d1";
+        } else { // topological operators on a number set
+            static const char *m[] = {"bd", "ir", "cl"};
+            e = std::string("(") + m[r.below(3)] + " " + gen_numset(r) + ")";
+            tag = "num-topo";
+        }
+        std::string line = with_verb(r, e, tag);
+        emit(line, tag);
     }
 }
